@@ -79,6 +79,10 @@ def cfgs_random(prop, tier, rng):
             c['a'] = [-3.0 + d for d in range(D)]
             c['b'] = [6.0 + 2 * d for d in range(D)]
             c['int_domain'] = rng.random() < 0.5
+        if prop in ('C04', 'C03') and rng.random() < 0.15:
+            # boundary points off with the modified basis: every linear function has to stay exact
+            c['modified'] = True
+            c['boundary'] = False
         r = rng.random()
         if r < 0.2:
             # further constructor options of the strategy
@@ -204,6 +208,8 @@ def run_prop(prop, tier, seed, finish=True):
         except Exception as ex:
             rep.exclude('paired history raised %r' % ex)
     tm['random_histories'] = time.time() - t0
+    rep.exclude('constructor option force_balanced_refinement_tree=True: one-sided refinement histories trip the assertion in find_missing_point (the option presupposes refinement that keeps full binary trees); not driven')
+    rep.exclude('constructor option dim_adaptive=False: the strategy keeps the standard scheme and maintains no adaptive index sets; not driven')
     return conclude(rep, prop, traces, finish=finish)
 
 
@@ -257,7 +263,7 @@ def replay_prop(prop, path, seed):
         r = json.load(f)['replay']
     cfg = r['script']['cfg']
     run = P.DimWiseRun(cfg['D'], cfg['lmin'], cfg['lmax'], version=cfg['version'], rebalancing=cfg['rebalancing'], boundary=cfg['boundary'],
-                       safety=cfg['safety'], margin=cfg['margin'], a=cfg['a'], b=cfg['b'], continue_via=cfg.get('continue_via', 'resume'), extra=cfg.get('extra'))
+                       safety=cfg['safety'], margin=cfg['margin'], a=cfg['a'], b=cfg['b'], continue_via=cfg.get('continue_via', 'resume'), extra=cfg.get('extra'), modified_basis=cfg.get('modified_basis', False))
     run.evaluate()
     evs = [P.observe(run)]
     if r['script']['start_depth'] != 0:
